@@ -51,6 +51,15 @@ def configure(cfg):
   settings.DYNAMIC_ROUTER = cfg['dyn']
   settings.DYNAMIC_ROUTER_MAX_RETRIES = cfg['retries']
   settings.TCP_KEEPALIVE = False
+  if cfg.get('ratio'):
+    # connection-quality resets: the monitor always finds the connection too slow and no minimum
+    # interval protects it, so every send first resets (closes) the connection
+    settings.USE_RATIO_RESET = True
+    settings.MIN_RESET_STAT_FLOW = 1
+    settings.MIN_RESET_RATIO = 0.9
+    settings.MIN_RESET_INTERVAL = cfg['ratio_interval']
+    instrumentation.prior_stats.clear()
+    instrumentation.prior_stats['metricsReceived'] = 1000
   for m in [k for k in sys.modules if k == 'carbon.client']:
     del sys.modules[m]
   import carbon.client as C
@@ -199,13 +208,17 @@ def run_sequence(C, cfg, seq, stop):
       st['p'] = p
       p.connectionMade()
     elif ev in ('l', 'f'):
-      if (ev == 'l') != connected:
+      closing = p is not None and f.connectedProtocol is p
+      if (ev == 'l' and not closing) or (ev == 'f' and connected):
         return False
       before = list(f.queue)
       was_full = f.queueFull.called
       del reinj[:]
       if ev == 'l':
-        p.connectionLost(Reason())
+        if p.connected:
+          p.connectionLost(Reason())
+        else:
+          p.connected = False
         f.clientConnectionLost(connector, Reason())
       else:
         f.clientConnectionFailed(connector, Reason())
@@ -243,7 +256,7 @@ def run_sequence(C, cfg, seq, stop):
       raise Fail('order_exactly_once', 'at quiescence the queue is %r; accepted and not yet written / re-routed: %r' % (list(f.queue), list(ref)))
     p = st['p']
     connected = p is not None and p.connected and f.connectedProtocol is p
-    if stop and any(n != 0 for n in closes):
+    if stop and not cfg.get('ratio') and any(n != 0 for n in closes):     # (a quality reset also closes the connection)
       raise Fail('stop_after_drain', 'orderly stop closed the connection with %r datapoints still queued' % ([n for n in closes if n],))
     if connected and not p.paused and len(f.queue) > 0:
       raise Fail('delivered_at_quiescence', 'connected, not paused, all timers fired, but %d datapoints stay queued' % len(f.queue))
@@ -267,6 +280,10 @@ def grid(thorough):
             if proto == 'line' and (per == 2 or not flow):
               continue
             out.append({'proto': proto, 'mx': mx, 'low': low, 'hard': hardpct, 'flow': flow, 'per': per, 'dyn': dyn, 'retries': retries})
+            if flow and dyn and retries == 0 and per in (2, 500) and mx >= 2:
+              for interval in ((0, 1000000) if thorough else (0,)):
+                out.append({'proto': proto, 'mx': mx, 'low': low, 'hard': hardpct, 'flow': flow, 'per': per, 'dyn': dyn, 'retries': retries,
+                            'ratio': True, 'ratio_interval': interval})
   return out
 
 
